@@ -1,1 +1,120 @@
-pub fn run(_t: &[&str]) -> Vec<i128> { unimplemented!() }
+// C08: AckPacket / EventPacket decoding; prints every exposed field.
+use crate::{eclass, hex};
+use cameleon_device::u3v::protocol::{ack, event};
+use cameleon_device::u3v::Result;
+use std::panic::{catch_unwind, AssertUnwindSafe};
+
+fn status_kind(k: ack::StatusKind) -> i128 {
+    use ack::GenCpStatus::*;
+    use ack::UsbSpecificStatus::*;
+    match k {
+        ack::StatusKind::GenCp(s) => match s {
+            Success => 0,
+            NotImplemented => 1,
+            InvalidParameter => 2,
+            InvalidAddress => 3,
+            WriteProtect => 4,
+            BadAlignment => 5,
+            AccessDenied => 6,
+            Busy => 7,
+            Timeout => 8,
+            InvalidHeader => 9,
+            WrongConfig => 10,
+            GenericError => 11,
+        },
+        ack::StatusKind::UsbSpecific(s) => match s {
+            ResendNotSupported => 100,
+            StreamEndpointHalted => 101,
+            PayloadSizeNotAligned => 102,
+            InvalidSiState => 103,
+            EventEndpointHalted => 104,
+        },
+        ack::StatusKind::DeviceSpecific => 200,
+    }
+}
+
+fn view<T>(r: std::thread::Result<Result<T>>, sh: impl Fn(T) -> Vec<i128>) -> Vec<i128> {
+    let v = match r {
+        Err(_) => vec![2],
+        Ok(Err(e)) => vec![1, eclass(&e)],
+        Ok(Ok(x)) => {
+            let mut v = vec![0];
+            v.extend(sh(x));
+            v
+        }
+    };
+    let mut out = vec![v.len() as i128];
+    out.extend(v);
+    out
+}
+
+fn bytes(d: &[u8]) -> Vec<i128> {
+    let mut v = vec![d.len() as i128];
+    v.extend(d.iter().map(|b| *b as i128));
+    v
+}
+
+fn run_ack(buf: &[u8]) -> Vec<i128> {
+    let a = match ack::AckPacket::parse(buf) {
+        Err(e) => return vec![1, eclass(&e)],
+        Ok(a) => a,
+    };
+    let kind = match a.scd_kind() {
+        ack::ScdKind::ReadMem => 0,
+        ack::ScdKind::WriteMem => 1,
+        ack::ScdKind::ReadMemStacked => 2,
+        ack::ScdKind::WriteMemStacked => 3,
+        ack::ScdKind::Pending => 4,
+    };
+    let st = a.status();
+    let mut out = vec![
+        0,
+        st.code() as i128,
+        status_kind(st.kind()),
+        st.is_fatal() as i128,
+        st.is_success() as i128,
+        kind,
+        a.ccd().scd_len() as i128,
+        a.request_id() as i128,
+        a.raw_scd().len() as i128,
+    ];
+    // the raw SCD must be the tail of the input
+    assert!(buf.ends_with(a.raw_scd()));
+    out.extend(view(catch_unwind(AssertUnwindSafe(|| a.scd_as::<ack::ReadMem>())), |x| bytes(x.data)));
+    out.extend(view(catch_unwind(AssertUnwindSafe(|| a.scd_as::<ack::WriteMem>())), |x| vec![x.length as i128]));
+    out.extend(view(catch_unwind(AssertUnwindSafe(|| a.scd_as::<ack::Pending>())), |x| {
+        vec![x.timeout.as_millis() as i128]
+    }));
+    out.extend(view(catch_unwind(AssertUnwindSafe(|| a.scd_as::<ack::ReadMemStacked>())), |x| bytes(x.data)));
+    out.extend(view(catch_unwind(AssertUnwindSafe(|| a.scd_as::<ack::WriteMemStacked>())), |x| {
+        let mut v = vec![x.lengths.len() as i128];
+        v.extend(x.lengths.iter().map(|l| *l as i128));
+        v
+    }));
+    out
+}
+
+fn run_event(buf: &[u8]) -> Vec<i128> {
+    match event::EventPacket::parse(buf) {
+        Err(e) => vec![1, eclass(&e)],
+        Ok(p) => {
+            let mut out = vec![0, p.request_id() as i128, p.scd.len() as i128];
+            for e in &p.scd {
+                out.push(e.event_size as i128);
+                out.push(e.event_id as i128);
+                out.push(e.timestamp as i128);
+                out.extend(bytes(e.data));
+            }
+            out
+        }
+    }
+}
+
+pub fn run(t: &[&str]) -> Vec<i128> {
+    let buf = hex(&t[1][1..]);
+    match t[0] {
+        "c08a" => run_ack(&buf),
+        "c08e" => run_event(&buf),
+        k => panic!("unknown kind {}", k),
+    }
+}
